@@ -421,7 +421,7 @@ def value_token(v):
   if isinstance(v, enum.Enum):
     return type(v).__name__ + "." + v.name
   if isinstance(v, Fr):
-    return "%d/%d" % (v.numerator, v.denominator)
+    return "%g" % float(v)
   if isinstance(v, numbers.Number):
     return "%g" % v
   if isinstance(v, str):
